@@ -1,8 +1,11 @@
 //! One `check(case, stats) -> Verdict` per property: the oracles proper.
 pub mod common;
 pub mod c01;
+pub mod c02;
+pub mod c04;
 pub mod c05;
 pub mod c06;
+pub mod c09;
 pub mod c11;
 pub mod c12;
 pub mod c13;
